@@ -54,18 +54,44 @@ def run(ck, ctx):
     muts.sort(key=lambda e: CG.effects.index(e))
     file_w = [e for e in CG.effects if e.kind == "io-write"]
 
+    # The staged writer is the class whose methods hold (most of) the mutations of the results table, whatever it is
+    # called and wherever it is defined (nested in compute() or at module level).
+    from collections import Counter
+    own_cls = Counter()
+    own_fn = Counter()
+    for e in muts:
+        fi_ = e.chain[-1][1] if e.chain else None
+        if fi_ is None:
+            continue
+        if fi_.cls is not None:
+            own_cls[fi_.cls.qualname] += 1
+        elif fi_.qualname != "compute":
+            own_fn[fi_.qualname] += 1
+    if own_cls:
+        WRITER_ = own_cls.most_common(1)[0][0] + "."
+        writer_fns = set()
+    elif own_fn:
+        WRITER_ = None
+        writer_fns = {own_fn.most_common(1)[0][0]}
+    else:
+        WRITER_, writer_fns = WRITER, set()
+    ck.info["staged_writer"] = WRITER_ or sorted(writer_fns)
+
+    def is_writer(q):
+        return bool(q) and ((WRITER_ is not None and q.startswith(WRITER_)) or q in writer_fns)
+
     # ---------------------------------------------------------------- R17.1 ownership
     def r171():
         ck.floor("R17.1", len(muts), 14, "mutations of the results table below compute()")
         for e in muts:
             owner = e.funcs()[-1] if e.funcs() else "?"
-            ok = owner.startswith(WRITER)
+            ok = is_writer(owner)
             if not ok:
                 ck.ob("R17.1", f"results table mutated outside the staged writer [{owner} at {e.where()}]", False,
                       e.node, owner, f"{e.kind} {e.data.get('name') or e.data.get('how')}",
                       construct=f"{owner}: results table mutated outside the staged writer")
         ck.ob("R17.1", "the results table is mutated only inside the staged writer's methods",
-              all((e.funcs()[-1] if e.funcs() else "").startswith(WRITER) for e in muts), table, func,
+              all(is_writer(e.funcs()[-1] if e.funcs() else "") for e in muts), table, func,
               f"{len(muts)} mutation(s) inspected")
     ck.guard(r171, "R17.1")
 
@@ -76,7 +102,7 @@ def run(ck, ctx):
         for idx, e in enumerate(CG.effects):
             ch = e.chain
             for k, (site, fi) in enumerate(ch):
-                if fi is not None and fi.qualname.startswith(WRITER):
+                if fi is not None and is_writer(fi.qualname):
                     key = tuple((s, f.qualname if f else None) for s, f in ch[:k + 1]) + (tuple((c.id, p) for c, p in e.pc[:0]),)
                     inv.setdefault((key, _pc_key(e.pc, ws)), []).append((idx, e))
                     break
@@ -158,14 +184,14 @@ def run(ck, ctx):
     def r173():
         for e in file_w:
             owner = e.funcs()[-1] if e.funcs() else "?"
-            ok = owner.startswith(WRITER) and _under(e.pc, ws) and e.data.get("name") == "write"
+            ok = is_writer(owner) and _under(e.pc, ws) and e.data.get("name") == "write"
             if not ok:
                 ck.ob("R17.3", f"file output outside the guarded staged write [{owner} at {e.where()}]", False, e.node,
-                      owner, f"{e.data.get('callee')} " + ("not under write_stages" if owner.startswith(WRITER) else ""),
+                      owner, f"{e.data.get('callee')} " + ("not under write_stages" if is_writer(owner) else ""),
                       construct=f"{owner}: file output {e.data.get('callee')}")
         ck.ob("R17.3", "every file-output effect below compute() is the staged write under write_stages "
               "(with intermediate writing disabled the simulation writes nothing)",
-              all((e.funcs()[-1] if e.funcs() else "").startswith(WRITER) and _under(e.pc, ws)
+              all(is_writer(e.funcs()[-1] if e.funcs() else "") and _under(e.pc, ws)
                   for e in file_w), table, func, f"{len(file_w)} file-output effect(s) inspected")
         ck.floor("R17.3", len(file_w), 14, "guarded writes")
         unk = [e for e in CG.effects if e.kind in ("extcall-unknown", "call-unknown", "mcall-unknown", "unsupported")]
@@ -201,9 +227,9 @@ def run(ck, ctx):
         n_inv = 0
         for key, lst in groups.items():
             stage = [(i, e, nx) for i, e, nx in lst if nx is not None and nx[1] is not None and
-                     not nx[1].qualname.startswith(WRITER)]
+                     not is_writer(nx[1].qualname)]
             store = [(i, e, nx) for i, e, nx in lst if nx is not None and nx[1] is not None and
-                     nx[1].qualname.startswith(WRITER)]
+                     is_writer(nx[1].qualname)]
             if not store:
                 continue
             n_inv += 1
@@ -214,7 +240,7 @@ def run(ck, ctx):
             for i, e, nx in sorted(lst, key=lambda t: t[0]):
                 if nx is None or nx[1] is None:
                     continue
-                if nx[1].qualname.startswith(WRITER):
+                if is_writer(nx[1].qualname):
                     stored = True
                     continue
                 if nx[1] is not cur_fi:
@@ -233,6 +259,49 @@ def run(ck, ctx):
         ck.ob("R17.4", "the storing wrapper has no exception handler", not hs, hs[0].node if hs else table,
               "nss_result_store.store_f", f"{len(hs)} handler(s)")
     ck.guard(r174, "R17.4")
+
+    # ---------------------------------------------------------------- R17.7 a stage that stores its own columns
+    def r177():
+        """A stage that is handed the writer (store=...) and calls it itself must do so as its last act: everything it
+        returns, and everything it stores, is complete before the writer runs - otherwise the file already holds the
+        stage's columns while the stage can still fail (or still changes what it stored)."""
+        recs = I.call_records
+        wrecs = [(k, rcd) for k, rcd in enumerate(recs) if is_writer(rcd[0].qualname) and len(rcd[1]) >= 2]
+        n = 0
+        seen = set()
+        for k, (wfi, wchain, w0, w1, _wv) in wrecs:
+            caller = wchain[-2][1]
+            if caller is None or is_writer(caller.qualname) or caller.qualname == "compute" or \
+                    caller.qualname.endswith("store_f"):
+                continue            # R17.4 covers the storing wrapper; compute() itself is not a stage
+            # the stage invocation that made this writer call: the record whose chain is the writer's minus the last
+            stage = next((r_ for r_ in recs[k:] if r_[1] == wchain[:-1]), None)
+            if stage is None:
+                continue
+            key = (caller.qualname, wchain[-2][0])
+            sfi, schain, s0, s1, sval = stage
+            n += 1
+            # nodes of the stage's own computation created after the writer returned
+            late = []
+            if sval is not None:
+                for x in walk([I.snapshot(sval, st)]):
+                    if w1 <= x.id < s1 and x.fn is not None and x.op not in ("Const", "Tuple", "Phi"):
+                        late.append(x)
+            eff_late = [e for e in CG.effects if e.chain[:len(schain)] == schain and e.node is not None and
+                        w1 <= e.node.id < s1 and e.kind in ("write", "raise", "mcall-mutate", "attr-write", "rng")]
+            if key in seen and not late and not eff_late:
+                continue
+            seen.add(key)
+            ck.ob("R17.7", f"{caller.qualname}: the stage hands its columns to the writer as its last act (what it "
+                  "returns is complete, nothing is computed or modified afterwards)", not late and not eff_late,
+                  late[0] if late else (eff_late[0].node if eff_late else sval), caller.qualname,
+                  (f"{len(late)} value(s) in the stage's result are computed after the store, first at "
+                   f"{late[0].where()}" if late else "") +
+                  (f"; {len(eff_late)} effect(s) after the store, first: {eff_late[0].kind} at {eff_late[0].where()}"
+                   if eff_late else ""),
+                  construct=f"{caller.qualname}: writer invoked before the stage has finished")
+        ck.info["stages_calling_the_writer_themselves"] = n
+    ck.guard(r177, "R17.7")
 
     # ---------------------------------------------------------------- R17.5 failure
     def r175():
